@@ -1,6 +1,6 @@
 (* C07 -- Inline markup renders to the intended structure (partial: see MANIFEST level text). *)
 From Rimu Require Import Base Unicode Regex RegexAnalysis RegexParse Str Types Tables Guards State Inline Block
-  Frame FrameBlock FrameInst OptionsLemmas MiscLemmas MoreLemmas Plain TableFacts PlainDoc Lines MatchExact Emphasis.
+  Frame FrameBlock FrameInst OptionsLemmas MiscLemmas MoreLemmas Plain TableFacts PlainDoc Lines MatchExact Emphasis ParaDoc.
 
 (* All other characters come through unchanged except that <, > and & are escaped: inline text over the
    plain alphabet (letters, digits, blanks, newline and the punctuation that is part of no markup; decided for
@@ -67,3 +67,14 @@ Example C07_ex_emphasis :
   spans_render 6 (ienv_of (document_init S0)) $"A *very* plain word, a < b." =
   iret $"A <em>very</em> plain word, a &lt; b.".
 Proof. vm_compute. reflexivity. Qed.
+
+(* ... and end to end: the one-line document  pre *body* post  (first character a letter, digit or safe punctuation mark, all text
+   over the safe alphabet) goes through the reader, past all 23 block-level patterns that precede the paragraph, through the
+   paragraph block, the macro pass and spans to  <p>pre <em>body</em> post</p>  with the session (log included) unchanged *)
+Theorem C07_emphasis_document : forall n s c pre body post,
+  quiet_default s -> In c safe_first -> RegexAnalysis.over safe_alphabet (c :: pre) -> RegexAnalysis.over safe_alphabet body ->
+  body_ok body -> RegexAnalysis.over safe_alphabet post ->
+  doc_render (S (S (S (S (S (S n)))))) ((c :: pre) ++ star :: body ++ star :: post) s =
+  Ok ($"<p>" ++ (escape (c :: pre) ++ $"<em>" ++ escape body ++ $"</em>" ++ escape post) ++ $"</p>", s).
+Proof. exact emphasis_document. Qed.
+Print Assumptions C07_emphasis_document.
